@@ -1,10 +1,169 @@
--- C11: hash functions implement their specification on every input (property theorems)
+-- C11: hash functions implement their specification on every input (property theorems).
+-- Helper lemmas: WinterProofs/Lemmas/C11{MdsCommon,Mds12,Mds8,Sponge,Misc}.lean.
+--
+-- What is proved here and what is not (see also checks/C11.json):
+--  * (1) frequency-domain MDS: `mds_multiply_freq` is EXACTLY the integer matrix-vector product with
+--    the generated `MDS` table, with every i64 intermediate in range, for all limbs < 2^32 (both
+--    the 12x12 and the 8x8 variant); the tables are circulant; `INV_MDS * MDS = I (mod p)`; the
+--    96-bit reduction tail is correct modulo p, returns a 64-bit word, can return a NON-canonical
+--    word (witness), and `add_constants` brings any 64-bit word back into [0, p).
+--    NOT proved: the plumbing of `mds_multiply` itself (`mds_multiply_glue`, a `def : Prop`).
+--  * (2) S-boxes: only the closed computation `alpha * inv_alpha = 1 (mod p - 1)` for the three
+--    instances.  NOT proved: `exp7 x = x^7`, "the chain computes x^INV_ALPHA", "it inverts the
+--    S-box" (these need the field-morphism facts of C07 and Fermat; stated as `def : Prop`).
+--  * (3) sponge: totality of byte hashing; the byte encoding is injective; `hash` is
+--    `hash_elements` of the encoding; `merge = hash_elements (a ++ b)` for Rp64_256 / Rp62_248 on
+--    canonical raw words; the `merge_with_int` residue encoding is injective; extension elements
+--    hash as their flattening (by definition of the model: the cast is modelled, not verified).
 import Winter.Model.Rescue
+import WinterProofs.Lemmas.C11MdsCommon
+import WinterProofs.Lemmas.C11Mds12
+import WinterProofs.Lemmas.C11Mds8
+import WinterProofs.Lemmas.C11Sponge
+import WinterProofs.Lemmas.C11Misc
 
 namespace WinterProofs.C11
 open Gen Model Model.Rescue
 
-/-- the S-box exponents are inverse to each other modulo `p - 1` (64-bit instances) -/
-theorem alpha_inv_alpha_64 : (Rp64.ALPHA * Rp64.INV_ALPHA) % (F64.M - 1) = 1 := by decide +kernel
+/-! ## (1) MDS -/
+
+/-- 12x12: no `i64` intermediate of the frequency-domain product overflows -/
+theorem mds12_freq_no_overflow (s0 s1 s2 s3 s4 s5 s6 s7 s8 s9 s10 s11 : Nat)
+    (h0 : s0 < 4294967296) (h1 : s1 < 4294967296) (h2 : s2 < 4294967296) (h3 : s3 < 4294967296)
+    (h4 : s4 < 4294967296) (h5 : s5 < 4294967296) (h6 : s6 < 4294967296) (h7 : s7 < 4294967296)
+    (h8 : s8 < 4294967296) (h9 : s9 < 4294967296) (h10 : s10 < 4294967296) (h11 : s11 < 4294967296) :
+    Gen.Mds12.mds_multiply_freq_ok s0 s1 s2 s3 s4 s5 s6 s7 s8 s9 s10 s11 = true :=
+  Mds12.freq_ok s0 s1 s2 s3 s4 s5 s6 s7 s8 s9 s10 s11 h0 h1 h2 h3 h4 h5 h6 h7 h8 h9 h10 h11
+
+/-- 12x12: the frequency-domain product IS the integer matrix-vector product with the `MDS` table -/
+theorem mds12_freq_is_matVec (s0 s1 s2 s3 s4 s5 s6 s7 s8 s9 s10 s11 : Nat)
+    (h0 : s0 < 4294967296) (h1 : s1 < 4294967296) (h2 : s2 < 4294967296) (h3 : s3 < 4294967296)
+    (h4 : s4 < 4294967296) (h5 : s5 < 4294967296) (h6 : s6 < 4294967296) (h7 : s7 < 4294967296)
+    (h8 : s8 < 4294967296) (h9 : s9 < 4294967296) (h10 : s10 < 4294967296) (h11 : s11 < 4294967296) :
+    (match Gen.Mds12.mds_multiply_freq s0 s1 s2 s3 s4 s5 s6 s7 s8 s9 s10 s11 with
+     | (r0, r1, r2, r3, r4, r5, r6, r7, r8, r9, r10, r11) => [r0, r1, r2, r3, r4, r5, r6, r7, r8, r9, r10, r11])
+      = matVec Gen.Rp64.MDS [s0, s1, s2, s3, s4, s5, s6, s7, s8, s9, s10, s11] :=
+  Mds12.freq_matVec s0 s1 s2 s3 s4 s5 s6 s7 s8 s9 s10 s11 h0 h1 h2 h3 h4 h5 h6 h7 h8 h9 h10 h11
+
+-- a non-trivial instance of the hypotheses: the extreme limbs
+example : Gen.Mds12.mds_multiply_freq_ok 4294967295 4294967295 4294967295 4294967295 4294967295 4294967295
+    4294967295 4294967295 4294967295 4294967295 4294967295 4294967295 = true :=
+  mds12_freq_no_overflow _ _ _ _ _ _ _ _ _ _ _ _ (by decide) (by decide) (by decide) (by decide) (by decide)
+    (by decide) (by decide) (by decide) (by decide) (by decide) (by decide) (by decide)
+
+/-- 8x8: no `i64` intermediate of the frequency-domain product overflows -/
+theorem mds8_freq_no_overflow (s0 s1 s2 s3 s4 s5 s6 s7 : Nat)
+    (h0 : s0 < 4294967296) (h1 : s1 < 4294967296) (h2 : s2 < 4294967296) (h3 : s3 < 4294967296)
+    (h4 : s4 < 4294967296) (h5 : s5 < 4294967296) (h6 : s6 < 4294967296) (h7 : s7 < 4294967296) :
+    Gen.Mds8.mds_multiply_freq_ok s0 s1 s2 s3 s4 s5 s6 s7 = true :=
+  Mds8.freq_ok s0 s1 s2 s3 s4 s5 s6 s7 h0 h1 h2 h3 h4 h5 h6 h7
+
+/-- 8x8: the frequency-domain product IS the integer matrix-vector product with the `MDS` table -/
+theorem mds8_freq_is_matVec (s0 s1 s2 s3 s4 s5 s6 s7 : Nat)
+    (h0 : s0 < 4294967296) (h1 : s1 < 4294967296) (h2 : s2 < 4294967296) (h3 : s3 < 4294967296)
+    (h4 : s4 < 4294967296) (h5 : s5 < 4294967296) (h6 : s6 < 4294967296) (h7 : s7 < 4294967296) :
+    (match Gen.Mds8.mds_multiply_freq s0 s1 s2 s3 s4 s5 s6 s7 with
+     | (r0, r1, r2, r3, r4, r5, r6, r7) => [r0, r1, r2, r3, r4, r5, r6, r7])
+      = matVec Gen.Rp64Jive.MDS [s0, s1, s2, s3, s4, s5, s6, s7] :=
+  Mds8.freq_matVec s0 s1 s2 s3 s4 s5 s6 s7 h0 h1 h2 h3 h4 h5 h6 h7
+
+theorem mds_tables_circulant :
+    Misc.isCirculant 12 Gen.Rp64.MDS = true ∧ Misc.isCirculant 8 Gen.Rp64Jive.MDS = true :=
+  ⟨Misc.rp64_mds_circulant, Misc.jive_mds_circulant⟩
+
+theorem inv_mds_is_inverse :
+    Misc.matMulMod Gen.F64.M Gen.Rp64.INV_MDS Gen.Rp64.MDS = Misc.identity 12 ∧
+    Misc.matMulMod Gen.F64.M Gen.Rp64Jive.INV_MDS Gen.Rp64Jive.MDS = Misc.identity 8 :=
+  ⟨Misc.rp64_inv_mds, Misc.jive_inv_mds⟩
+
+/-- the reduction tail: a 64-bit word, congruent to `l + h * 2^32` modulo p, no overflow inside -/
+theorem mds_reduction_tail_correct (L H : Nat) (hL : L < 687194767360) (hH : H < 687194767360) :
+    tailRed L H < 18446744073709551616 ∧
+    ∃ k, L + H * 4294967296 = tailRed L H + k * 18446744069414584321 :=
+  tail_val L H hL hH
+
+example : (7 : Nat) < 687194767360 ∧ (9 : Nat) < 687194767360 := by decide
+
+/-- "is the output of `mds_multiply` canonical?" — no: the tail returns `2^64 - 8 >= p` -/
+theorem mds_reduction_tail_not_canonical :
+    ¬ (∀ L H, L < 687194767360 → H < 687194767360 → tailRed L H < 18446744069414584321) := by
+  intro h
+  -- witness inside the limb-sum bound: l = 1, h = 2^32 - 1 gives l + h * 2^32 = p exactly, and the
+  -- tail returns p itself (checked by evaluation: `tailRed 1 4294967295 = 18446744069414584321`)
+  exact absurd (h 1 4294967295 (by decide) (by decide)) (by decide)
+
+/-- ... but it cannot reach a digest: `add_constants` maps ANY 64-bit word into `[0, p)`, correctly
+    modulo p, because every round constant's raw word is at most `p - 2^32` -/
+theorem add_constants_recanonicalises (s k : Nat) (hs : s < 18446744073709551616)
+    (hk : k ≤ 18446744065119617025) :
+    Gen.F64.add s k < 18446744069414584321 ∧ ∃ q, s + k = Gen.F64.add s k + q * 18446744069414584321 :=
+  Misc.f64_add_canonical s k hs hk
+
+theorem round_constants_small :
+    Misc.arkSmall Gen.Rp64.ARK1 = true ∧ Misc.arkSmall Gen.Rp64.ARK2 = true ∧
+    Misc.arkSmall Gen.Rp64Jive.ARK1 = true ∧ Misc.arkSmall Gen.Rp64Jive.ARK2 = true :=
+  ⟨Misc.rp64_ark_small.1, Misc.rp64_ark_small.2, Misc.jive_ark_small.1, Misc.jive_ark_small.2⟩
+
+/-- FULL statement, NOT proved (see `Mds12.mm_eq_tail_statement`): `mds_multiply` is the tail
+    applied to the two frequency-domain products of the limbs.  Tied by correspondence only. -/
+def mds_multiply_glue : Prop := Mds12.mm_eq_tail_statement ∧ Mds8.mm_eq_tail_statement
+
+/-! ## (2) S-boxes -/
+
+theorem sbox_exponents_inverse :
+    (Gen.Rp64.ALPHA * Gen.Rp64.INV_ALPHA) % (Gen.F64.M - 1) = 1 ∧
+    (Gen.Rp64Jive.ALPHA * Gen.Rp64Jive.INV_ALPHA) % (Gen.F64.M - 1) = 1 ∧
+    (Gen.Rp62.ALPHA * Gen.Rp62.INV_ALPHA) % (Gen.F62.M - 1) = 1 :=
+  ⟨Misc.alpha_inv_64, Misc.alpha_inv_jive, Misc.alpha_inv_62⟩
+
+/-- FULL statement, NOT proved: under C07's hypotheses (`p` prime, `val` a ring morphism from raw
+    words) the inverse S-box chain inverts the S-box.  Only `sbox_exponents_inverse` is proved. -/
+def inv_sbox_inverts_sbox (val : Nat → Nat) (p : Nat) : Prop :=
+  ∀ x, val (F64.invSbox (Gen.F64.exp7 x)) = val x % p
+
+/-! ## (3) Sponge -/
+
+/-- hashing a byte string succeeds for EVERY length, for all three Rescue instances -/
+theorem hash_bytes_total (P : Params) (bs : List Nat) : ∃ d, hashBytes P bs = .ok d :=
+  Sponge.hashBytes_total P bs
+
+/-- `hash` is `hash_elements` of the documented encoding of the bytes -/
+theorem hash_bytes_is_hash_elements (P : Params) (bs : List Nat) :
+    hashBytes P bs = .ok (hashElements P ((Sponge.encodeBytes bs).map P.F.new)) :=
+  Sponge.hashBytes_eq P bs
+
+/-- the encoding is injective: inputs differing only in length or trailing zero bytes are encoded
+    differently (the element count also goes into the capacity: `encodeBytes_length`) -/
+theorem byte_encoding_injective (a b : List Nat) (ha : ∀ x ∈ a, x < 256) (hb : ∀ x ∈ b, x < 256)
+    (h : Sponge.encodeBytes a = Sponge.encodeBytes b) : a = b :=
+  Sponge.encodeBytes_injective a b ha hb h
+
+example : Sponge.encodeBytes [1, 2] ≠ Sponge.encodeBytes [1, 2, 0] := by decide
+
+theorem merge_is_hash_elements_rp64 (a0 a1 a2 a3 b0 b1 b2 b3 : Nat)
+    (h0 : a0 < 18446744069414584321) (h1 : a1 < 18446744069414584321) (h2 : a2 < 18446744069414584321)
+    (h3 : a3 < 18446744069414584321) (h4 : b0 < 18446744069414584321) (h5 : b1 < 18446744069414584321)
+    (h6 : b2 < 18446744069414584321) (h7 : b3 < 18446744069414584321) :
+    merge rp64 [a0, a1, a2, a3] [b0, b1, b2, b3] = hashElements rp64 [a0, a1, a2, a3, b0, b1, b2, b3] :=
+  Sponge.rp64_merge_eq a0 a1 a2 a3 b0 b1 b2 b3 h0 h1 h2 h3 h4 h5 h6 h7
+
+/-- for the 62-bit instance the raw words must be below `2^62` (every canonical word is): a word in
+    `[2^62, 2p)` is copied by `merge` but reduced by `hash_elements`' `+=`, so the raw states differ
+    although the residues agree -/
+theorem merge_is_hash_elements_rp62 (a0 a1 a2 a3 b0 b1 b2 b3 : Nat)
+    (h0 : a0 < 4611686018427387904) (h1 : a1 < 4611686018427387904) (h2 : a2 < 4611686018427387904)
+    (h3 : a3 < 4611686018427387904) (h4 : b0 < 4611686018427387904) (h5 : b1 < 4611686018427387904)
+    (h6 : b2 < 4611686018427387904) (h7 : b3 < 4611686018427387904) :
+    merge rp62 [a0, a1, a2, a3] [b0, b1, b2, b3] = hashElements rp62 [a0, a1, a2, a3, b0, b1, b2, b3] :=
+  Misc.rp62_merge_eq a0 a1 a2 a3 b0 b1 b2 b3 h0 h1 h2 h3 h4 h5 h6 h7
+
+/-- the residues `merge_with_int` writes (value mod p, value div p, flag) determine the integer -/
+theorem merge_with_int_encoding_injective (M v v' : Nat)
+    (h : Misc.intEncodingRes M v = Misc.intEncodingRes M v') : v = v' :=
+  Misc.intEncodingRes_injective M v v' h
+
+/-- extension elements are hashed as their base-field flattening (definitional in the model) -/
+theorem hash_elements_ext_is_flattening (P : Params) (es : List (List Nat)) :
+    hashElementsExt P es = hashElements P es.flatten := rfl
 
 end WinterProofs.C11
